@@ -9,7 +9,7 @@ WT=/tmp/seedchk/wt_${PID}_$K
 mkdir -p /tmp/seedchk
 # base commit: the first of the known /repo states the patch applies to
 BASE=""
-for b in 38b246d 900fe01 47ba31a fac8f5b HEAD; do
+for b in ${BASES:-38b246d 900fe01 47ba31a fac8f5b HEAD}; do
   if git -C /repo worktree add -q --detach /tmp/seedchk/probe_$$ $b 2>/dev/null; then
     if git -C /tmp/seedchk/probe_$$ apply --check $SRC/patch.diff 2>/dev/null; then BASE=$b; fi
     git -C /repo worktree remove --force /tmp/seedchk/probe_$$
